@@ -180,6 +180,44 @@ func Select(terms []Term, pc int) map[int]bool {
 }
 
 // Collect lists pages in term order with repetitions (terms without negation only).
+// CollectNeg is Collect extended to negated terms under the reading "a negated term deselects its pages":
+// every occurrence of the term's pages collected so far is removed. The second result is false if a term
+// cannot be evaluated.
+func CollectNeg(terms []Term, pc int) []int {
+	var out []int
+	for _, t := range terms {
+		var ps []int
+		switch t.Kind {
+		case "even":
+			for p := 2; p <= pc; p += 2 {
+				ps = append(ps, p)
+			}
+		case "odd":
+			for p := 1; p <= pc; p += 2 {
+				ps = append(ps, p)
+			}
+		default:
+			ps = t.Pages(pc)
+		}
+		if !t.Negated {
+			out = append(out, ps...)
+			continue
+		}
+		del := map[int]bool{}
+		for _, p := range ps {
+			del[p] = true
+		}
+		var kept []int
+		for _, p := range out {
+			if !del[p] {
+				kept = append(kept, p)
+			}
+		}
+		out = kept
+	}
+	return out
+}
+
 func Collect(terms []Term, pc int) ([]int, bool) {
 	var out []int
 	for _, t := range terms {
